@@ -91,6 +91,11 @@ def make_mem_models():
             others_r = sum(v for k, v in lk.readers.items() if k != tid)
             if lk.writer == tid or (write and mine_r > 0):
                 raise Panic("deadlock: thread %s acquires the filesystem lock (%s) while it already holds it" % (tid, "write" if write else "read"))
+            if mine_r > 0:
+                # std::sync::RwLock: a recursive read may deadlock as soon as a writer is queued between the two acquisitions
+                # (writer-preferring implementations); the documentation tells callers not to do it
+                raise Panic("deadlock: thread %s re-acquires the filesystem read lock while it already holds a read guard "
+                            "(std::sync::RwLock: recursive read locks deadlock once a writer is waiting)" % tid)
             if lk.writer is not None or (write and others_r > 0):
                 raise Blocked(lk)
             if write:
